@@ -10,7 +10,7 @@ import (
 func Now() time.Time {
 	s := S
 	if s == nil {
-		return time.Now()
+		return Epoch.Add(time.Duration(lastEnd))
 	}
 	if s.cfg.Tick && s.cur != nil {
 		s.tick()
@@ -24,7 +24,7 @@ func Now() time.Time {
 func NowNoTick() time.Time {
 	s := S
 	if s == nil {
-		return time.Now()
+		return Epoch.Add(time.Duration(lastEnd))
 	}
 	return Epoch.Add(time.Duration(s.now))
 }
